@@ -159,6 +159,14 @@ func evalNameArray(node *jparse.NameNode, data reflect.Value, env *environment) 
 			return undefined, err
 		}
 
+		// A nested array yields a sequence of its own. Merge its
+		// values into the results instead of nesting the sequence
+		// object, which is not a JSON value.
+		if seq, ok := asSequence(v); ok {
+			results.values = append(results.values, seq.values...)
+			continue
+		}
+
 		if v.IsValid() && v.CanInterface() {
 			results.Append(v.Interface())
 		}
